@@ -54,13 +54,72 @@ func renameAll(repo, suffix string, listOnly bool) int {
 	inModule := func(o types.Object) bool {
 		return o != nil && o.Pkg() != nil && strings.HasPrefix(o.Pkg().Path(), modPath)
 	}
+	// RENAME_EXPORTED=1: also rename exported-cased methods and fields of UNEXPORTED named types (not API either),
+	// unless some interface anywhere in the loaded program declares a method of that name.
+	ifaceMethods := map[string]bool{}
+	privMember := map[types.Object]bool{}
+	if os.Getenv("RENAME_EXPORTED") != "" {
+		seenPkg := map[*types.Package]bool{}
+		var visit func(tp *types.Package)
+		visit = func(tp *types.Package) {
+			if tp == nil || seenPkg[tp] {
+				return
+			}
+			seenPkg[tp] = true
+			sc := tp.Scope()
+			for _, name := range sc.Names() {
+				tn, ok := sc.Lookup(name).(*types.TypeName)
+				if !ok {
+					continue
+				}
+				if it, ok := tn.Type().Underlying().(*types.Interface); ok {
+					for i := 0; i < it.NumMethods(); i++ {
+						ifaceMethods[it.Method(i).Name()] = true
+					}
+				}
+				if n, ok := tn.Type().(*types.Named); ok && strings.HasPrefix(tp.Path(), modPath) && !tn.Exported() {
+					for i := 0; i < n.NumMethods(); i++ {
+						privMember[n.Method(i)] = true
+					}
+					if st, ok := n.Underlying().(*types.Struct); ok {
+						for i := 0; i < st.NumFields(); i++ {
+							if !st.Field(i).Embedded() {
+								privMember[st.Field(i)] = true
+							}
+						}
+					}
+				}
+			}
+			for _, imp := range tp.Imports() {
+				visit(imp)
+			}
+		}
+		for _, pk := range pkgs {
+			visit(pk.Types)
+		}
+		// common method sets used through reflection / fmt
+		for _, n := range []string{"String", "Error", "GoString", "Format", "MarshalJSON", "UnmarshalJSON", "MarshalText", "UnmarshalText"} {
+			ifaceMethods[n] = true
+		}
+	}
 	want := func(o types.Object) bool {
 		if !inModule(o) {
 			return false
 		}
 		n := o.Name()
-		if n == "" || n == "_" || n == "init" || n == "main" || token.IsExported(n) {
+		if n == "" || n == "_" || n == "init" || n == "main" {
 			return false
+		}
+		if token.IsExported(n) {
+			if f, ok := o.(*types.Func); ok {
+				o = f.Origin()
+			}
+			if v, ok := o.(*types.Var); ok {
+				o = v.Origin()
+			}
+			if !privMember[o] || ifaceMethods[n] {
+				return false
+			}
 		}
 		switch o.(type) {
 		case *types.Func, *types.Var, *types.TypeName, *types.Const:
